@@ -16,6 +16,9 @@ Oracles
               session gives the same program (the statement's "re-enters as the same program")
  (2b) load/save histories inside ONE session (hide_protected on or off) mixing protected and unprotected files, NEW and
       MERGE: after every step the program just loaded must list, match the file's program and save in every format.
+ (2c) cassette: ASCII programs whose text length sits at and around multiples of the 255-byte record payload (k*255-8..k*255+8,
+      k=1..3) saved as the first of two or three files on one tape (then B / P / A files), every file loaded back in order by name;
+      in the generated programs the order of the three formats on the tape is random.
  (3) converter: pcbasic.main('--convert=X', src, dst) in-process against LOAD src + SAVE dst,X in a session,
      for src in B/P/A and X in B/P/A: identical files.
 """
@@ -53,7 +56,9 @@ META = {
     'require_counters': {'any': ['cipher_pairs', 'cipher_lengths', 'fmt_B_disk', 'fmt_P_disk', 'fmt_A_disk', 'fmt_B_bound', 'fmt_P_bound', 'fmt_A_bound',
                                  'fmt_B_cas', 'fmt_P_cas', 'fmt_A_cas', 'merge_seen', 'ascii_reenterable', 'ctrl_z_in_string_seen',
                                  'high_line_numbers_seen', 'long_lines_seen', 'converter_runs', 'corpus_programs', 'protected_hidden_resave_seen',
-                                 'session_steps', 'session_unprotected_after_protected_seen_hidden']},
+                                 'session_steps', 'session_unprotected_after_protected_seen_hidden',
+                                 'tape_length_cases', 'tape_A_followed_by_another_file', 'tape_B_followed_by_another_file',
+                                 'tape_P_followed_by_another_file']},
     'timeout': {'quick': 900, 'thorough': 7200},
 }
 
@@ -502,16 +507,106 @@ def run_programs(spec, res):
         devices, wav = ('disk', 'bound', 'cas'), False
         if i % 15 == 7:
             devices, wav = ('disk', 'cas'), True
-        formats = 'BP' if special else 'BPA'
+        # the order of the formats is the order of the files on the tape: every format is sometimes followed by another file
+        formats = ''.join(rng.sample('BP' if special else 'BPA', 2 if special else 3))
         st = check_program(res, lines, rng, label, devices, formats, special, use_wav=wav)
         res.count('programs_' + label)
         if i == 0:
             res.sample({'label': label, 'program': lines[:5], 'status': st})
 
 
+def sized_program(target, first=10):
+    """Program whose ASCII text (every line + one terminator byte) is exactly `target` bytes long."""
+    lines, n, left = [], first, target
+    while True:
+        head = b'%d REM ' % n
+        if left - (len(head) + 1) <= 200:
+            pad = left - (len(head) + 1)
+            if pad < 0:
+                return None
+            lines.append(head + b'p' * pad)
+            return lines
+        lines.append(head + b'q' * 100)
+        left -= len(head) + 100 + 1
+        n += 10
+
+
+def tape_sequence(res, progs, label, wav=False):
+    """
+    progs = [(lines, fmt)...]: saved one after the other on ONE fresh tape, then every file is loaded back from a fresh session
+    in tape order and by name; every one must give its program back (listing and program image).
+    """
+    from .. import harness
+    sb = Sandbox()
+    case = {'label': label, 'files': [[fmt, lines] for lines, fmt in progs]}
+    try:
+        tape = ('WAV:' if wav else 'CAS:') + os.path.join(sb.root, 'tape.' + ('wav' if wav else 'cas'))
+        ref = []
+        with sb.box(tape=tape) as a:
+            for i, (lines, fmt) in enumerate(progs):
+                a.ex(b'NEW', 20000)
+                if a.enter(lines):
+                    return
+                core = core_of(memory(a))[0]
+                out, listing = pg.list_to_file(a, b'L0.TXT')
+                out2 = a.ex(b'SAVE "CAS1:F%d"%s' % (i, FMT_ARG[fmt]), 20000)
+                if out or out2 or listing is None:
+                    res.violation('cas:tape-sequence:save-error', 'file %d (%s): LIST %r SAVE %r' % (i, fmt, out, out2), case)
+                    return
+                ref.append((core, listing))
+        with sb.box(tape=tape) as b:
+            for i, (lines, fmt) in enumerate(progs):
+                prev = progs[i - 1][1] if i else None
+                where = ('first-file' if i == 0 else 'file-after-%s-file' % {'A': 'an-ascii', 'B': 'a-tokenised', 'P': 'a-protected'}[prev]) + \
+                        ':' + {'A': 'ascii', 'B': 'tokenised', 'P': 'protected'}[fmt]
+                res.count('tape_files_loaded')
+                if i + 1 < len(progs):
+                    res.count('tape_%s_followed_by_another_file' % fmt)
+                res.case((label, i, fmt, tuple(lines)))
+                b.ex(b'NEW', 20000)
+                out = b.ex(b'LOAD "CAS1:F%d"' % i, 20000)
+                msg = [l for l in out.split(b'\r\n') if l and not l.endswith(b'Found.') and not l.endswith(b'Skipped.')]
+                if msg:
+                    res.violation('cas:tape-sequence:%s:load-error' % where, 'LOAD "CAS1:F%d" gave %r' % (i, out[:120]), case)
+                    continue
+                out, listing = pg.list_to_file(b, b'L1.TXT')
+                if listing != ref[i][1] or core_of(memory(b))[0] != ref[i][0]:
+                    res.violation('cas:tape-sequence:%s:program-differs' % where, 'file %d: %d lines listed, %d saved' % (
+                        i, len(listing or []), len(ref[i][1])), case)
+    except harness.Internal as e:
+        res.violation(e.key, str(e), case)
+    finally:
+        sb.close()
+
+
+def run_tape_lengths(res):
+    """ASCII programs whose text length sits at and around multiples of the 255-byte record payload, followed by other files."""
+    small = [[b'10 PRINT "second"', b'20 GOTO 10'], [b'5 REM third', b'6 DATA 1,2,"x"']]
+    j = 0
+    for k in (1, 2, 3):
+        # +-8 around k*255 covers one or two terminator bytes per line and a closing byte, whichever the tape format uses
+        for target in range(k * 255 - 8, k * 255 + 9):
+            lines = sized_program(target)
+            if lines is None:
+                continue
+            f2 = 'BPA'[j % 3]
+            progs = [(lines, 'A'), (small[0], f2)]
+            if j % 2:
+                progs.append((small[1], 'A' if f2 != 'A' else 'B'))
+            tape_sequence(res, progs, 'tape-lengths:%d' % target)
+            res.count('tape_length_cases')
+            j += 1
+    # two sized ASCII programs in a row, then a tokenised one
+    for t1, t2 in ((255, 255), (254, 510), (253, 256), (509, 254), (765, 255)):
+        tape_sequence(res, [(sized_program(t1), 'A'), (sized_program(t2, 1000), 'A'), (small[0], 'B')], 'tape-lengths:%d+%d' % (t1, t2))
+        res.count('tape_length_cases')
+    tape_sequence(res, [(sized_program(254), 'A'), (small[0], 'P')], 'tape-lengths:wav', wav=True)
+
+
 def run_directed(spec, res):
     from .. import harness
     rng = random.Random('C15:directed')
+    run_tape_lengths(res)
     fixed = [
         ([b'10 PRINT "HELLO"', b'20 GOTO 10'], 'two-lines'),
         ([b'0 REM first', b'65529 END'], 'boundary-numbers'),
